@@ -137,6 +137,10 @@ func ParsePHC(s string) (*PHC, error) {
 	// Decode salt (expect 16 bytes to fit [16]byte)
 	saltB64 := parts[3]
 	var salt [16]byte
+	// Decode writes up to DecodedLen bytes and panics when the destination is shorter
+	if base64.RawStdEncoding.DecodedLen(len(saltB64)) > len(salt) {
+		return nil, fmt.Errorf("invalid salt length: want 16 bytes")
+	}
 	n, err := base64.RawStdEncoding.Decode(salt[:], []byte(saltB64))
 	if err != nil {
 		return nil, fmt.Errorf("invalid salt: %w", err)
